@@ -41,7 +41,7 @@ ASSUMPTIONS = [
 
 
 def GATES(tier):
-    return [("copies_judged", 300), ("identity_graphs_compared", 300), ("followup_mutations", 500), ("dnc_attrs_checked", 10), ("kind:deepcopy", 10), ("dnc_with_subclass_cases", 5), ("dnc_inherited_attr_cases", 3), ("noargs_forms", 20), ("shallow_transforms", 10), ("bare_redeclared_dnc_attr", 3)] + [
+    return [("copies_judged", 300), ("identity_graphs_compared", 300), ("followup_mutations", 500), ("dnc_attrs_checked", 10), ("kind:deepcopy", 10), ("dnc_with_subclass_cases", 5), ("dnc_inherited_attr_cases", 3), ("noargs_forms", 20), ("shallow_transforms", 10), ("bare_redeclared_dnc_attr", 3), ("whole_instance_shallow_transforms", 20), ("class_level_reads_compared", 5), ("dnc_one_shot_iterable_cases", 2)] + [
         (f"kind:{hk}", 5) for hk in dr.HELPER_KINDS
     ]
 
@@ -122,11 +122,55 @@ def random_inplace_mutation(world, rng, insts, idx):
     return dict(c, kind="nested", target=idx, hkind="nested:" + c["how"])
 
 
+ONE_SHOT_SRC = """
+from typing import List
+from spec_classes import spec_class
+
+def names():
+    yield "second"
+    yield "third"
+
+@spec_class(do_not_copy=iter(["second", "third"]), bootstrap={boot})
+class ByIter:
+    first: List[int] = [1]
+    second: List[int] = [2]
+    third: List[int] = [3]
+
+@spec_class(do_not_copy=names(), bootstrap={boot})
+class ByGen:
+    first: List[int] = [1]
+    second: List[int] = [2]
+    third: List[int] = [3]
+"""
+
+
+def directed_one_shot(ctx):
+    """do_not_copy is documented as Iterable[str]: whatever kind of iterable names the attributes, those are carried by identity."""
+    import copy as _copy
+
+    for boot in (True, False):
+        ns = cg.exec_module(ONE_SHOT_SRC.format(boot=boot), prefix="verif_c02i").__dict__
+        for cname in ("ByIter", "ByGen"):
+            ctx.count("dnc_one_shot_iterable_cases")
+            ctx.count("copies_judged")
+            x = ns[cname]()
+            for label, y in (("deepcopy", _copy.deepcopy(x)), ("with_first([9])", x.with_first([9]))):
+                problems = [n for n in ("second", "third") if getattr(y, n) is not getattr(x, n)]
+                if label == "deepcopy" and y.first is x.first:
+                    problems.append("first (shared although not declared do_not_copy)")
+                if problems:
+                    ctx.violation("do_not_copy_by_identity", f"[directed] {cname} (do_not_copy given as a one-shot iterable of 'second', 'third'; bootstrap={boot}): after {label} not carried by identity: {problems}",
+                                  features={"hkind": "deepcopy" if label == "deepcopy" else "with", "form": "dnc_one_shot_iterable", "attr_kind": "list", "dnc": True}, case=["dnc_one_shot", cname, boot, label])
+    ctx.sig("directed", "dnc_one_shot_iterable")
+
+
 def run(ctx, params):
+    if params.get("directed"):
+        return directed_one_shot(ctx)
     rng = ctx.rng
     for ci in range(params["cases"]):
         mixed = rng.random() < 0.3
-        decl = cg.gen_module(rng, {"frozen": False, "dnc_with_subclasses": mixed, "redeclare_dnc": 0.5, "bare_redeclaration": 0.4})
+        decl = cg.gen_module(rng, {"frozen": False, "dnc_with_subclasses": mixed, "redeclare_dnc": 0.5, "bare_redeclaration": 0.4, "init_false": True})
         for c in decl.classes:
             for a in c.attrs:
                 if a.bare:
@@ -160,6 +204,10 @@ def run(ctx, params):
                         verb = rng.choice(["update", "transform"])
                         op = {"kind": "helper", "target": target, "name": f"{verb}_{n}", "args": [], "kwargs": {}, "hkind": f"{verb}_attr", "form": "noargs", "attr": n, "validity": "valid", "inplace": False}
                         ctx.count("noargs_forms")
+                    elif r_ < 0.13:
+                        # the whole-instance transform alone, returning a *new* instance that holds what it was given
+                        op = {"kind": "helper", "target": target, "name": "transform", "args": [["fn", "shallow"]], "kwargs": {}, "hkind": "transform", "form": "fn_only", "attr": None, "validity": "valid", "inplace": False}
+                        ctx.count("whole_instance_shallow_transforms")
                     elif r_ < 0.3:
                         # a transform that returns a *new* object holding the old elements / nested values
                         swapped = False
@@ -213,9 +261,23 @@ def run(ctx, params):
                         allowed.update(mutable_nodes(R.__dict__[n]))
                 mr, mx = mutable_nodes(R), mutable_nodes(X)
                 shared = [o for oid, o in mx.items() if oid in mr and oid not in allowed]
+                where_extra = []
+                # ... and what both instances *read* for a managed attribute neither stores itself (a value that lives on the
+                # class, e.g. the default of an attribute that is not a constructor argument): one object behind two instances
+                for n in world.decl.attrs_of(cname):
+                    if n in dnc or n in unspec or n in X.__dict__ or n in R.__dict__:
+                        continue
+                    try:
+                        vx, vr = getattr(X, n), getattr(R, n)
+                    except AttributeError:
+                        continue
+                    ctx.count("class_level_reads_compared")
+                    if vx is vr and mutable_nodes(vx) and id(vx) not in allowed:
+                        shared.append(vx)
+                        where_extra.append(n)
                 ctx.count("identity_graphs_compared")
                 if shared:
-                    where = [k for k, v in X.__dict__.items() if any(id(s) in mutable_nodes(v) for s in shared)]
+                    where = [k for k, v in X.__dict__.items() if any(id(s) in mutable_nodes(v) for s in shared)] + where_extra
                     ctx.violation(
                         "copy_shares_mutable_state",
                         f"{dr.op_src(op)}: result shares {len(shared)} mutable object(s) with the receiver, e.g. {safe_repr(shared[0], 60)} (type {type(shared[0]).__name__}) under attribute(s) {where}",
@@ -268,5 +330,5 @@ def run(ctx, params):
 
 def plan(tier, seed):
     if tier == "quick":
-        return [{"shard": i, "cases": 60, "copies_per_case": 6} for i in range(16)]
-    return [{"shard": i, "cases": 1200, "copies_per_case": 8} for i in range(32)]
+        return [{"directed": True}] + [{"shard": i, "cases": 60, "copies_per_case": 6} for i in range(16)]
+    return [{"directed": True}] + [{"shard": i, "cases": 1200, "copies_per_case": 8} for i in range(32)]
